@@ -2,13 +2,11 @@ import Driver.Util
 import Driver.Ssbs
 import ESV.Comp.Backend
 import ESV.Comp.LabSem
-import ESV.Comp.FrontW13
 import ESV.Comp.ToSrcEq
-import ESV.Comp.CodegenF0e
-import ESV.Comp.CgFinal
-import ESV.Comp.CgFinal5
+import ESV.Comp.GuardDefs
+import ESV.Comp.CgDefs
 import Driver.Beh
-import ESV.SsbScript.Closed
+import ESV.SsbScript.Model
 open Lean Drv ESV ESV.Comp
 
 
@@ -205,7 +203,8 @@ def handle (op : String) (j : Json) : R Json := do
     pure (resultTo (backend rs) [] [])
   | "comp.ssbs_compile" =>
     -- the SsbScript compiler model with the routine id check of repo commit 418dd8e in front
-    match ESV.SsbScript.Cl.compileRawChecked (← (← asArr (← fld j "ast")).mapM Drv.SsbsD.routineOf) with
+    -- (`ESV.SsbScript.Cl.compileRawChecked` of ESV/SsbScript/Closed.lean is this function by definition; the driver imports no proof file)
+    match ESV.SsbScript.compileRaw (← (← asArr (← fld j "ast")).mapM Drv.SsbsD.routineOf) with
     | .ok o => pure (Json.mkObj [("out", Drv.SsbsD.outTo o)])
     | .error e => pure (Drv.SsbsD.errTo e)
   | _ => throw s!"unknown op {op}"
